@@ -273,7 +273,7 @@ theorem stage_identity (cfg : Config R) (ext : Ext R) (hext : ExtOk ext)
     exact List.ne_nil_of_mem he
   refine ⟨hid, ?_⟩
   obtain ⟨ms0, h0, hv0, _⟩ := assignStage_repaired hext Fixes.repaired rfl cfg.matcher m
-    (toCost (scoreMatrixP cfg.red score cands m (cur.map (·.1))))
+    (toCost (scoreMatrixP cfg.red score cands m (cur.map (·.1)))) (colPattern_scoreMatrix _ _ _ _ _)
   rw [hlen] at hv0
   have hb' : ∀ e ∈ ident, e.1 < (toCost (scoreMatrixP cfg.red score cands m (cur.map (·.1)))).length
       ∧ e.2 < m := by rw [hlen]; exact hc.bounds
